@@ -44,7 +44,7 @@ def cfg_cons(radius, maxmut, dump=True, type_signed=True, invariants=("Binding",
 
 
 def cfg_tx(radius, maxmut, dump=True, signer_hash=True,
-           invariants=("Binding", "ChainBound", "Malleable", "RoundTrip", "UnprotectedEverywhere")):
+           invariants=("Binding", "ChainBound", "Malleable", "FailConsistent", "RoundTrip", "UnprotectedEverywhere")):
     s = ("SPECIFICATION Spec\nCONSTANTS\n  VoteTypeSigned = TRUE\n  SignTxUsesSignerHash = %s\n  Base <- BaseV\n"
          "  OrigRadius = %d\n  MaxMut = %d\n  Forms <- %s\n  Chains <- ChainsV\nVIEW View\n") % (
         "TRUE" if signer_hash else "FALSE", radius, maxmut, TX_FORMS)
